@@ -63,7 +63,7 @@ def gen_steps(rnd):
 
 def write_cfg(path, names):
     with open(path, 'w', encoding='utf8') as f:
-        f.write('[circus]\ncheck_delay = -1\nendpoint = ipc:///sim/ctrl\npubsub_endpoint = ipc:///sim/pub\n\n')
+        f.write('[circus]\ncheck_delay = -1\nendpoint = ipc:///sim/ctrl\npubsub_endpoint = ipc:///sim/pub\nwarmup_delay = 1\n\n')
         for n in names:
             f.write('[watcher:%s]\ncmd = %s\nnumprocesses = 1\ngraceful_timeout = 0.2\n\n' % (n, simhist.tag_of(n)))
 
@@ -257,8 +257,19 @@ def _run(w, h, d, res):
                               % (op, name, str(rep)[:150]), steps=done)
         elif op == 'reloadconfig':
             write_cfg(cfg, st[1])
-            rep = yield w.call('reloadconfig', waiting=True)
-            yield w.settle(60)
+            if len(done) % 2 == 0:
+                # not waiting: look at the directory while watchers are being brought up one global warmup apart
+                mid = w.req('reloadconfig')
+                for dt in (0.03, 0.5, 1.2):
+                    yield w.advance(dt)
+                    views_agree(w, res, '%.2f s into reloadconfig %r' % (dt, st[1]), list(done))
+                yield w.settle(120)
+                # the immediate "ok" only says accepted; whether the file was applied is what the same request,
+                # sent again with waiting, answers (reloading an unchanged file is a no-op)
+                rep = yield w.call('reloadconfig', waiting=True)
+            else:
+                rep = yield w.call('reloadconfig', waiting=True)
+            yield w.settle(120)
             ok = isinstance(rep, dict) and rep.get('status') == 'ok'
             sig.append(('reloadconfig', len(st[1]), ok))
             if ok:
